@@ -108,6 +108,10 @@ def main():
         check("rfind_in", specs.rfind_in(":", *pcs) and specs.rfind_in("-", *pcs), pcs)
         lo_, n_ = r.randint(0, 4), r.randint(1, 3)
         check("char_of_slice", all(specs.char_of_slice(anys + tokd, lo_, n_, j_) for j_ in range(n_)), (anys + tokd, lo_, n_))
+        ii = r.randint(-1, len(tokd))
+        check("digit_at", specs.digit_at(tokd, ii) and specs.digit_at(anys, ii), (tokd, ii))
+        check("char_in_token", specs.char_in_token(hd + tokd + rs, hd, tokd, rs, ii), (hd, tokd, rs, ii))
+        check("lstrip_noop", specs.lstrip_noop(tokd, "0") and specs.lstrip_noop(anys, "0"), tokd)
         # character classes used by the char models
         ch = chr(r.choice([r.randint(0, 127), r.randint(128, 0x2FFF)]))
         if ord(ch) < 128:
